@@ -481,7 +481,10 @@ func c19Generate(tier string, emit func(src string)) {
 		`<noscript><img src="x"></noscript>`, `<div><noscript><p>a &amp; b</p></noscript></div>`, `<iframe><b>x</b></iframe>`, `<xmp><b>x</b> &amp;</xmp>`, `<noembed><i>y</i></noembed>`,
 		"<!-- row -->\n<tr><td>x</td></tr>", "<!-- c --><td>x</td>", "<tr\r\n  v-for=\"r in rows\"><td>x</td></tr>", "<tr\tclass=\"a\"><td>x</td></tr>",
 		"<!-- x -->\n<!DOCTYPE html>\n<html><body><p>a</p></body></html>", "\n<!DOCTYPE html><html><head></head><body><p>a</p></body></html>",
-		`<svg><use xlink:href="#a"></use></svg>`, `<svg viewBox="0 0 1 1"><path d="M0 0"/></svg>`, `<svg><style>.a &gt; .b{}</style></svg>`, `<math><mi>x</mi></math>`,
+		`<svg><use xlink:href="#a"></use></svg>`, `<svg viewBox="0 0 1 1"><path d="M0 0"/></svg>`,
+		// every prefixed attribute the parser knows in foreign content, and some it does not
+		`<div><svg xmlns="http://www.w3.org/2000/svg" xmlns:xlink="http://www.w3.org/1999/xlink" viewBox="0 0 1 1"><use xlink:href="#a" xml:space="preserve" xlink:title="t" xlink:show="new" xlink:actuate="x" xlink:arcrole="r" xlink:role="o" xlink:type="simple" xml:lang="en" xml:base="/b"></use></svg></div>`,
+		`<math xmlns:xlink="http://www.w3.org/1999/xlink" xmlns:foo="urn:x" foo:bar="1"><mi xlink:href="#m" xml:lang="de">x</mi></math>`, `<p xmlns:xlink="x" xlink:href="y" xml:lang="en">html element</p>`, `<svg><style>.a &gt; .b{}</style></svg>`, `<math><mi>x</mi></math>`,
 		`<p>{{ 'a  b' }}</p>`, `<p>{{ s == "x  y" ? 1 : 2 }}</p>`, `<p>{{ "don't   stop" }}</p>`, `<td>{{ '6"   nail' }}</td>`, `<span>{{ 'say "hi"   now' }} and {{ "it's   ok" }}</span>`, "<p>{{ 'a\n  b' }}</p>", `<p title="{{ 'a  b' }}">t</p>`, `<p>{{ a &amp;lt; b }}</p>`, `<p>{{ a &lt; b }}</p>`,
 		`<p>a&nbsp;</p>`, `<p>&nbsp;a</p>`, `<p title="&nbsp;x&nbsp;">t</p>`, `<p>a&nbsp;&nbsp;b</p>`, `<b>x</b>&nbsp;<i>y</i>`,
 		`<html-view>x</html-view>`, `<htmlx a="b">k</htmlx><p>y</p>`,
